@@ -55,13 +55,17 @@ func (n *naiveTSO) Deal() (revision uint64, err error) {
 
 // Commit implement TSO interface
 func (n *naiveTSO) Commit(revision uint64) {
-	// todo: CAS to ensure revision increase continuously
-	//swapped := atomic.CompareAndSwapUint64(&n.committedRevision, revision-1, revision)
-	//if !swapped {
-	//	panic("committed revision must increase continuously")
-	//}
-
-	atomic.StoreUint64(&n.committedRevision, revision)
+	// the committed revision only moves forward: besides the sequencer, which commits in increasing
+	// order, a revision comes in from the leader election (the lock version of a new leader) and from
+	// follower reads (the revision fetched from the leader), on other goroutines and in any order.
+	// A revision fetched from the previous leader may arrive after this node has become leader itself
+	// and must not move its read revision back below the version it started from.
+	for {
+		cur := atomic.LoadUint64(&n.committedRevision)
+		if revision <= cur || atomic.CompareAndSwapUint64(&n.committedRevision, cur, revision) {
+			break
+		}
+	}
 	// in case leader transfer, need to update tso and pre tso
 	preTSO := atomic.LoadUint64(&n.dealRevision)
 	if preTSO < revision {
